@@ -208,6 +208,23 @@ def gen_area_world(rng):
     if rng.random() < 0.4:
         # a model with its own variable depth surface
         f['composition models'].append({'model': 'uniform', 'compositions': [1], 'max depth': [[hi_base]] + [[wg.num(rng, 1e5, 3e5), [[p[0], p[1]]]] for p in inner[:4]]})
+    if rng.random() < 0.6:
+        # models of every kind with their own variable depth surfaces (hook 5: their min/max pre-tests are skipped in the second world)
+        def msurf(lo, hi, k):
+            return [[wg.num(rng, lo, hi)]] + [[wg.num(rng, lo, hi), [[p[0], p[1]]]] for p in rng.sample(inner, min(k, len(inner)))]
+
+        def ranged(m):
+            w2 = rng.choice(['max', 'min', 'both'])
+            if w2 in ('max', 'both'):
+                m['max depth'] = msurf(1.2e5, 3.5e5, rng.choice([1, 3, 6]))
+                vals_all.extend(it[0] for it in m['max depth'])
+            if w2 in ('min', 'both'):
+                m['min depth'] = msurf(0.0, 1.0e5, rng.choice([1, 3, 6]))
+                vals_all.extend(it[0] for it in m['min depth'])
+            return m
+        f['velocity models'] = [ranged({'model': 'uniform raw', 'velocity': [0.25, -0.5, 0.125]})]
+        f['temperature models'].append(ranged({'model': 'uniform', 'temperature': 111.0, 'operation': 'add'}))
+        f['grains models'] = [ranged({'model': 'uniform', 'compositions': [0], 'rotation matrices': [[[0, 1, 0], [1, 0, 0], [0, 0, -1]]], 'grain sizes': [0.5]})]
     doc['features'] = [f]
     pts = []
     x0, y0, x1, y1 = wg.poly_bbox(poly)
